@@ -71,7 +71,7 @@ def run(ctx):
             bad = r.choice(["x", "1x", "x1", "12a3", "abc", "1 2", " 120", ".5", "#70", "1.5x", "12-3", "5 ", "--5", "-", "+", "!", "/7", ",3", "(4)", "*"])
             if (fmt.name, c) in (("bdg", 3), ("narrowpeak", 6)):
                 # float columns: '.5' is a float; malformed floats have their own shapes
-                bad = r.choice([bad if bad != ".5" else ".5.", ".5.", "1..5", "1.2.3", "..", ".e1", "1e5e3", "1e", "e5", "1e+", "1.5e2.5", "1e1.5", "--1", "1.5-", "1.-5", "1,5", "0x1p3", "1_0"])
+                bad = r.choice([bad if bad != ".5" else ".5.", ".5.", "1..5", "1.2.3", "..", ".e1", "1e5e3", "1e", "e5", "1e+", "1.5e2.5", "1e1.5", "--1", "1.5-", "1.-5", "1,5", "0x1p3", "1_0", "2.5e--3", "4e-+2", "1e+-2", "3-5", "2-"])
             f[c] = bad
             raws[pos] = "\t".join(f) + eol
             line = pos
@@ -111,8 +111,8 @@ def run(ctx):
             t.tolist()
         tables.rows_of(t, list(fmt.fields))
 
-    def attempt(path, fmt, bt, lazy, k, how="columns"):
-        """-> ('table', n) | ('FormatException', line) | ('error', type)"""
+    def attempt(path, fmt, bt, lazy, k, how="columns", other=None):
+        """-> ('table', n) | ('FormatException', line) | ('error', type);  other: a well-formed file read chunk by chunk in between (two readers in one process)"""
         try:
             rd = bnp.open(path, buffer_type=bt, lazy=lazy)
             n = 0
@@ -121,7 +121,12 @@ def run(ctx):
                 touch(t, fmt, how)
                 n = len(t)
             else:
+                it2 = iter(bnp.open(other, buffer_type=bt, lazy=lazy).read_chunks(min_chunk_size=max(1, k // 2))) if other else None
                 for chunk in rd.read_chunks(min_chunk_size=k):
+                    if it2 is not None:
+                        nxt = next(it2, None)
+                        if nxt is not None:
+                            touch(nxt, fmt, "columns")
                     touch(chunk, fmt, how)
                     n += len(chunk)
             return ("table", n)
@@ -140,6 +145,9 @@ def run(ctx):
         fc = make_file(fname, r, n, r.choice(["tiny", "normal"]), {"noncanon": False, "eol": "\n", "final_newline": True, "score_mode": "int", "tags": False})
         bt = tables.get_buffer_type(fmt.buffer)
         L = fmt.lines_per_entry
+        good_path = ctx.path("good" + fmt.suffix)
+        with open(good_path, "wb") as f:
+            f.write(fc["data"])
         for cls in ("marker", "plus", "nonnumeric", "alphabet", "extra-column", "missing-column"):
             for pos in range(n):
                 inj = inject(fc, fmt, r, cls, pos)
@@ -163,9 +171,10 @@ def run(ctx):
                 span = (pos * L, pos * L + L - 1)
                 for k, lazy, p, mode in configs:
                     how = r.choice(["columns", "columns", "whole-first", "tolist-first"])
-                    out = attempt(p, fmt, bt, lazy, k, how)
+                    inter = k is not None and r.random() < 0.15
+                    out = attempt(p, fmt, bt, lazy, k, how, other=good_path if inter else None)
                     nt = (data, cls, pos, k, lazy, p.endswith(".gz")) if n >= 2 else None
-                    cfg = "k=%s,%s,%s%s" % (k, "lazy" if lazy else "eager", "gzip" if p.endswith(".gz") else "plain", "" if how == "columns" else "," + how)
+                    cfg = "k=%s,%s,%s%s%s" % (k, "lazy" if lazy else "eager", "gzip" if p.endswith(".gz") else "plain", "" if how == "columns" else "," + how, ",interleaved-with-another-reader" if inter else "")
                     if out[0] == "table":
                         isolated = ""
                         if mode == "chunked" and cls in ("extra-column", "missing-column"):
